@@ -321,3 +321,79 @@ Proof.
   - rewrite PE. rewrite blit_app_over; [| reflexivity | unfold len in *; lia].
     unfold Iso.ser_pkt. cbn [Iso.lh Iso.lf Iso.lpayload Iso.ser_af app]. f_equal. unfold takeN. f_equal. unfold len in *. lia.
 Qed.
+
+(* ------------------------------------------------------------------ adaptation-field-only packets are refused, untouched *)
+Lemma set_payload_af_only l d : Iso.wf_lpkt l -> Iso.afc (Iso.lh l) = 2 ->
+  SetPayload_m (Iso.ser_pkt l) d = (Iso.ser_pkt l, Err E.NoPayload).
+Proof.
+  intros W A2. destruct (wf_flags l W) as (AFC & _). unfold SetPayload_m. rewrite AFC, A2. reflexivity.
+Qed.
+
+(* ------------------------------------------------------------------ the result is well-formed *)
+Lemma takeN_bytes n (d : bytes) : is_bytes d -> is_bytes (takeN n d).
+Proof.
+  unfold is_bytes, takeN. intros H. rewrite <- (firstn_skipn (N.to_nat n) d) in H. apply Forall_app in H. exact (proj1 H).
+Qed.
+Lemma len_takeN {A} n (d : list A) : len (takeN n d) = N.min n (len d).
+Proof. unfold len, takeN. rewrite firstn_length. lia. Qed.
+Lemma len_nonempty {A} (l : list A) : 1 <= len l -> l <> [].
+Proof. destruct l; [rewrite len_nil; lia | discriminate]. Qed.
+Lemma nonempty_len {A} (l : list A) : l <> [] -> 1 <= len l.
+Proof. destruct l; [congruence | rewrite len_cons; lia]. Qed.
+
+Lemma set_payload_wf l d : Iso.wf_lpkt l -> carries_payload l -> d <> [] -> is_bytes d ->
+  Iso.wf_lpkt (Iso.set_payload l d).
+Proof.
+  intros W CP ND DB. pose proof (wf_len l W) as L188. pose proof (nonempty_len d ND) as LD.
+  destruct W as (HO & SY & AO & PB & _ & C).
+  assert (Iso.hdr_ok (Iso.with_afc (Iso.lh l) 3)) as HO3.
+  { destruct HO as (A & B & C' & D & F & G & I & J). unfold Iso.hdr_ok, Iso.with_afc.
+    cbn [Iso.sync Iso.tei Iso.pusi Iso.tp Iso.pid Iso.tsc Iso.afc Iso.cc]. repeat split; try assumption; lia. }
+  unfold Iso.ser_pkt in L188. rewrite !len_app, len_ser_hdr in L188.
+  destruct l as [h f pay]. cbn [Iso.lh Iso.lf Iso.lpayload] in *.
+  unfold Iso.set_payload, Iso.capacity, Iso.af_content_len. cbn [Iso.lh Iso.lf Iso.lpayload].
+  assert (forall h' f' pay', Iso.hdr_ok h' -> Iso.sync h' = 71 -> Iso.afield_ok f' -> is_bytes pay' ->
+            4 + len (Iso.ser_af f') + len pay' = 188 ->
+            match f' with Iso.NoAF => Iso.afc h' = 1 | _ => (Iso.afc h' = 2 /\ pay' = []) \/ (Iso.afc h' = 3 /\ pay' <> []) end ->
+            Iso.wf_lpkt (Iso.mkLpkt h' f' pay')) as MK.
+  { intros h' f' pay' X1 X2 X3 X4 X5 X6. unfold Iso.wf_lpkt. cbn [Iso.lh Iso.lf Iso.lpayload].
+    split; [exact X1|]. split; [exact X2|]. split; [exact X3|]. split; [exact X4|]. split; [|exact X6].
+    unfold Iso.ser_pkt. cbn [Iso.lh Iso.lf Iso.lpayload].
+    rewrite !app_length. change (length (Iso.ser_hdr h')) with 4%nat. unfold len in X5. lia. }
+  destruct f as [| |a st].
+  - (* no adaptation field *)
+    cbn [Iso.ser_af] in L188. rewrite len_nil in L188. change (184 - 0) with 184.
+    destruct (N.ltb_spec (len d) 184) as [LT|GE].
+    + destruct (N.eqb_spec (len d) 183) as [E|NE]; apply MK; try assumption; try exact I.
+      * cbn [Iso.ser_af]. rewrite len_cons, len_nil. lia.
+      * right. split; [reflexivity | exact ND].
+      * split; [exact laf0_ok | apply repeatN_bytes; unfold is_byte; lia].
+      * cbn [Iso.ser_af]. rewrite len_cons, len_app, len_repeatN. change (len (Iso.ser_af_body Iso.laf0)) with 1. lia.
+      * right. split; [reflexivity | exact ND].
+    + apply MK; try assumption; [apply takeN_bytes; exact DB | cbn [Iso.ser_af]; rewrite len_nil, len_takeN; lia].
+  - (* length 0 *)
+    cbn [Iso.ser_af] in L188. rewrite len_cons, len_nil in L188. change (184 - 1) with 183.
+    assert (Iso.afc h = 3) as A3 by (destruct CP as [X|X]; cbn [Iso.lh] in X; destruct C as [[Y _]|[Y _]]; congruence).
+    destruct (N.ltb_spec (len d) 183) as [LT|GE].
+    + replace (len d =? 183) with false by (symmetry; apply N.eqb_neq; lia). apply MK; try assumption.
+      * split; [exact laf0_ok | apply repeatN_bytes; unfold is_byte; lia].
+      * cbn [Iso.ser_af]. rewrite len_cons, len_app, len_repeatN. change (len (Iso.ser_af_body Iso.laf0)) with 1. lia.
+      * right. split; [reflexivity | exact ND].
+    + apply MK; try assumption; [apply takeN_bytes; exact DB | cbn [Iso.ser_af]; rewrite len_cons, len_nil, len_takeN; lia |].
+      right. split; [exact A3 | apply len_nonempty; rewrite len_takeN; lia].
+  - (* populated field *)
+    cbn [Iso.ser_af Iso.afield_ok] in *. rewrite len_cons, len_app in L188. destruct AO as [LA SB].
+    assert (Iso.afc h = 3 /\ pay <> []) as [A3 NP].
+    { destruct CP as [X|X]; cbn [Iso.lh] in X; destruct C as [[Y Z]|[Y Z]]; try congruence. auto. }
+    pose proof (nonempty_len pay NP) as LP.
+    destruct (N.ltb_spec (len d) (184 - (1 + len (Iso.ser_af_body a)))) as [LT|GE].
+    + apply MK; try assumption.
+      * split; [exact LA | apply repeatN_bytes; unfold is_byte; lia].
+      * cbn [Iso.ser_af]. rewrite len_cons, len_app, len_repeatN. lia.
+      * right. split; [reflexivity | exact ND].
+    + apply MK; try assumption.
+      * split; [exact LA | constructor].
+      * apply takeN_bytes; exact DB.
+      * cbn [Iso.ser_af]. rewrite len_cons, len_app, len_nil, len_takeN. lia.
+      * right. split; [exact A3 | apply len_nonempty; rewrite len_takeN; lia].
+Qed.
